@@ -71,7 +71,7 @@ theorem twin_E_frame (hps : ∀ p ∈ ps, p.1 < s₀.groups.size)
     e₂.nodes[s₀.nodes.size]? = some n ∧ e₂.groups[s₀.groups.size]? = some (.block [s₀.groups.size + 1]) ∧
     e₂.groups[s₀.groups.size + 1]? = some (.noop ps none) ∧ SEq (twT s₀ ps n kk) e₂ ∧
     e₂.noArgs = na ∧ e₂.testTypes = nt ∧ s₀.next + kk ≤ e₂.next ∧ s₀.nodes.size + 1 ≤ e₂.nodes.size ∧
-    s₀.groups.size + 2 ≤ e₂.groups.size := by
+    e₂.groups.size = s₀.groups.size + 2 ∧ BlkEq (twT s₀ ps n kk) e₂ := by
   have ok : (PselfE na nt s₀ (twT s₀ ps n kk)).Ok :=
     ⟨fun _ _ h => h, fun _ _ h => h, fun _ _ h => h, fun h => Bool.noConfusion h, fun _ _ => rfl⟩
   have ha : ASim (PselfE na nt s₀ (twT s₀ ps n kk)) (twT s₀ ps n kk) (twT s₀ ps n kk) := asim_self (na := na) (nt := nt) (s := twT s₀ ps n kk) (fun i => i ≠ s₀.nodes.size)
@@ -122,15 +122,18 @@ theorem twin_E_frame (hps : ∀ p ∈ ps, p.1 < s₀.groups.size)
   have hdd : rnDest id d = d := by cases d <;> rfl
   rw [hmap, hdd] at hrun
   obtain ⟨_, he, e1, _⟩ := hrun () e₂ () e₂ hE hE
-  refine ⟨?_, ?_, ?_, e1, he.na₁, he.nt₁, ?_, ?_, ?_⟩
+  refine ⟨?_, ?_, ?_, e1, he.na₁, he.nt₁, ?_, ?_, ?_, ?_⟩
   · rw [he.fr1n s₀.nodes.size (fun h => h rfl)]; exact twT_nodes_N ps n kk
   · rw [he.fr1g s₀.groups.size (fun h => by rcases h with h | h <;> omega)]; exact twT_groups_G ps n kk
   · rw [he.fr1g (s₀.groups.size + 1) (fun h => by rcases h with h | h <;> omega)]; exact twT_groups_G1 ps n kk
   · exact he.mono₁.1
   · have : (twT s₀ ps n kk).nodes.size ≤ e₂.nodes.size := he.mono₁.2.1
     rw [twT_nodes_size] at this; exact this
-  · have : (twT s₀ ps n kk).groups.size ≤ e₂.groups.size := he.mono₁.2.2
-    rw [twT_groups_size] at this; exact this
+  · have := wp_of_run (GSz.forM ps (fun p => addExit f p.1 d p.2) (fun x _ => addExit_gsz f x.1 d x.2)
+      (twT s₀ ps n kk)) hE
+    rw [this, twT_groups_size]
+  · exact wp_of_run (BlkStep.forM ps (fun p => addExit f p.1 d p.2) (fun x _ => addExit_blk f x.1 d x.2)
+      (twT s₀ ps n kk)) hE
 
 end
 
